@@ -16,6 +16,7 @@ pub struct C05 {
     seed: u64,
     n_tiny: u64,
     n_hdr: u64,
+    n_wrap: u64,
     n_gen: u64,
     n_comp: u64,
     n_shape: u64,
@@ -29,6 +30,8 @@ impl C05 {
             seed,
             n_tiny,
             n_hdr: scaled(tier.pick(2_000, 50_000), scale),
+            // one case per start offset of a long run around the 64 KiB (and, thorough, 96/128 KiB) marks
+            n_wrap: tier.pick(800, 3 * 800),
             n_gen: scaled(tier.pick(20_000, 500_000), scale),
             n_comp: scaled(tier.pick(8_000, 200_000), scale),
             n_shape: scaled(tier.pick(256, 6_400), scale),
@@ -162,7 +165,7 @@ fn header_noise(r: &mut Rng) -> (String, Vec<u8>) {
 
 impl Monitor for C05 {
     fn ncases(&self) -> u64 {
-        self.n_tiny + self.n_hdr + self.n_gen + self.n_comp + self.n_shape
+        self.n_tiny + self.n_hdr + self.n_wrap + self.n_gen + self.n_comp + self.n_shape
     }
 
     fn run_case(&mut self, k: u64, ctx: &mut Ctx) {
@@ -199,6 +202,31 @@ impl Monitor for C05 {
             return;
         }
         k -= self.n_hdr;
+        if k < self.n_wrap {
+            // the hash chains keep positions in u16 and renormalise periodically: place a maximal match
+            // at every offset around the marks where that arithmetic wraps
+            let mut r = Rng::derive(self.seed, 0x0505, k, 0);
+            let mark = [65536usize, 65536 + 32768, 131072][(k / 800) as usize % 3];
+            let off = mark - 700 + (k % 800) as usize;
+            let mut p = crate::plain::text(&mut r, off);
+            let b = r.byte();
+            let run = 300 + r.usize_below(600);
+            p.extend(std::iter::repeat(b).take(run));
+            let tail = 20 + r.usize_below(3000);
+            p.extend(crate::plain::text(&mut r, tail));
+            let level = *r.pick(&[1, 4, 6, 6, 9]);
+            let d = match r.below(4) {
+                0 => crate::comp::libdeflate_raw(&p, *r.pick(&[1, 6, 9, 12])),
+                1 => crate::comp::zlibng_raw(&p, level, 0, 15, 8),
+                _ => crate::comp::zlib_raw(&p, level, 0, 15, *r.pick(&[8, 8, 9]), &[]),
+            };
+            if let Some(d) = d {
+                ctx.count("cases:run_across_position_wrap");
+                self.judge_sampled(&d, &format!("run of {} starting at plaintext offset {} (level {})", run, off, level), ctx);
+            }
+            return;
+        }
+        k -= self.n_wrap;
         let (src, mut r) = if k < self.n_gen {
             (0, Rng::derive(self.seed, 0x0502, k, 0))
         } else if k < self.n_gen + self.n_comp {
